@@ -9,13 +9,11 @@ Fixpoint WFc (c : chain) : Prop :=
 
 Lemma WFc_chain_ok : forall c, WFc c -> chain_ok c.
 Proof.
-  induction c as [|l p IH]; intros H.
-  - intros q l p E. destruct q; discriminate.
-  - destruct H as [I H]. apply chain_ok_cons; [apply I|apply IH; exact H].
+  intros [|l p] H; [exact Logic.I|]. destruct H as [I H]. apply (I_rok _ _ I).
 Qed.
 
 Lemma add_stmt_spec : forall gm p l st, Inv p l ->
-  st_post p l (add_stmt gm p l st) (fun fuel s => specF fuel st s).
+  st_post p l (add_stmt gm p l st) (fun fuel s => specF fuel st s) (fun s => specG (gsel gm p l) st s).
 Proof.
   intros gm p l st I. destruct st as [f a pr|f a b vc|heads b vc|f ar].
   - apply (add_stmt_noad_spec gm p l (SFact f a pr) I Logic.I).
@@ -36,7 +34,7 @@ Lemma adds_spec : forall gm ss p l, Inv p l ->
 Proof.
   intros gm ss. induction ss as [|st ss IH]; intros p l I.
   - exists l. splits; [reflexivity|exact I|]. intros. simpl. rewrite app_nil_r. reflexivity.
-  - rewrite adds_cons. destruct (add_stmt_spec gm p l st I) as (I1 & _ & Habs1).
+  - rewrite adds_cons. destruct (add_stmt_spec gm p l st I) as (I1 & _ & Habs1 & _).
     destruct (IH p _ I1) as (l' & E & I' & Habs').
     exists l'. splits; [exact E|exact I'|]. intros fuel s Hu.
     rewrite (Habs' fuel s Hu), (Habs1 fuel s Hu). simpl. rewrite <- app_assoc. reflexivity.
@@ -45,7 +43,7 @@ Qed.
 Lemma Inv_root : Inv [] empty_layer.
 Proof.
   constructor.
-  - intros k v [].
+  - split; [intros k v []|exact Logic.I].
   - intros s n H. discriminate H.
   - intros s n H. discriminate H.
   - intros s1 s2 n H. discriminate H.
@@ -53,6 +51,8 @@ Proof.
   - intros i Hi. simpl in Hi. lia.
   - intros k a n H. discriminate H.
   - reflexivity.
+  - intros s n H. discriminate H.
+  - intros i Hi. simpl in Hi. lia.
 Qed.
 
 Lemma WFc_root0 : WFc root0.
@@ -70,9 +70,10 @@ Proof.
   assert (Hg : forall i, get_node (empty_layer :: l :: p) i = get_node (l :: p) i) by (intros; apply (get_node_extend (l :: p)); exact Hc).
   assert (Hs : size (empty_layer :: l :: p) = size (l :: p)) by (apply (size_extend (l :: p))).
   assert (Hh : forall s, get_head (empty_layer :: l :: p) s = get_head (l :: p) s) by reflexivity.
-  destruct I as [rok h0 h1 h3 w3 cl fresh err].
+  assert (Hr : forall i, resolve (empty_layer :: l :: p) i = resolve (l :: p) i) by (intros; apply (resolve_extend (l :: p)); exact Hc).
+  destruct I as [rok h0 h1 h3 w3 cl fresh err hres hcall].
   constructor.
-  - intros k v [].
+  - split; [intros k v []|exact Hc].
   - intros s n Hn. rewrite Hh in Hn. rewrite Hs. eapply h0; eauto.
   - intros s n Hn. rewrite Hh in Hn. unfold head_shape. rewrite Hg. apply h1. exact Hn.
   - intros s1 s2 n. rewrite !Hh. apply h3.
@@ -80,6 +81,8 @@ Proof.
   - intros i Hi. rewrite Hs in Hi. rewrite Hg. eapply ok_node_ext; [exact Hs|exact Hg|]. apply cl. exact Hi.
   - intros k a n Hn. rewrite Hh in Hn. rewrite Hs. eapply fresh; eauto.
   - reflexivity.
+  - intros s n Hn. rewrite Hh in Hn. rewrite Hr. apply (hres _ _ Hn).
+  - intros i Hi. rewrite Hs in Hi. rewrite Hg. eapply call_ok_ext; [exact Hh|exact Hr|]. apply hcall. exact Hi.
 Qed.
 
 Lemma WFc_extend : forall c, c <> [] -> WFc c -> WFc (extend c).
